@@ -910,7 +910,8 @@ func (state *BuildState) WaitForPackage(l, dependent BuildLabel, mode ParseMode)
 }
 
 func (state *BuildState) WaitForBuiltTarget(l, dependent BuildLabel, mode ParseMode) *BuildTarget {
-	if t := state.Graph.Target(l); t != nil && t.State().IsBuilt() {
+	if t := state.Graph.Target(l); t != nil && (t.State().IsBuilt() || t.State() >= DependencyFailed) {
+		// Built already, or it never will be: a failure that has already happened is not signalled again.
 		return t
 	}
 
